@@ -173,22 +173,62 @@ open StorageModel.C05.Schema
 def parseBool (c : Char) : Bool := c == '1'
 
 def parseColl (s : String) : Option Coll :=
-  match s.toList with
+  match ((s.splitOn ".").headD "").toList with
   | ['p', a, b] => some (.plain (parseBool a) (parseBool b))
   | ['r', a, b] => some (.rc (parseBool a) (parseBool b))
   | ['s', f, c] => some (.self (if f == 'A' then .A else .B) (parseBool c))
   | _ => none
 
-/-- `<collections>[@<extA><extB>]`: the declared collections ("-" = none) and, optionally, which
-    family's child store is extended -/
+/-- naming variants of a collection end (`<coll>.<vA><vB>`): 0 bucket named like the symbol,
+    1 another key, 2 under the prefix `refs`, 3 another key under `refs/deep` -/
+def mkNaming (name : String) (v : Char) : Naming :=
+  match v with
+  | '1' => { name := name, key := "k" ++ name }
+  | '2' => { name := name, key := name, pre := ["refs"] }
+  | '3' => { name := name, key := "k" ++ name, pre := ["refs", "deep"] }
+  | _ => { name := name, key := name }
+
+def storeIdx (x : Store) : Nat := (match x.side with | .A => 0 | .B => 1) + (if x.child then 2 else 0)
+
+/-- the k-th collection registered on a store uses that store's symbol name `f<k>` (the harness
+    counts the same way): per collection the names of its side-A and side-B symbols -/
+def collNames (colls : List Coll) : List (String × String) :=
+  let step := fun (acc : List Nat × List (String × String)) (c : Coll) =>
+    let cnt := acc.1
+    let take := fun (cnt : List Nat) (x : Store) =>
+      let k := cnt.getD (storeIdx x) 0
+      ("f" ++ toString k, cnt.set (storeIdx x) (k + 1))
+    match c.storeAt .A, c.storeAt .B with
+    | some xa, some xb =>
+      let ra := take cnt xa
+      let rb := take ra.2 xb
+      (rb.2, acc.2 ++ [(ra.1, rb.1)])
+    | some xa, none =>
+      let ra := take cnt xa
+      (ra.2, acc.2 ++ [(ra.1, ra.1)])
+    | _, _ => (cnt, acc.2 ++ [("", "")])
+  (colls.foldl step ([0, 0, 0, 0], [])).2
+
+/-- `<collections>[@<extA><extB>]`: the declared collections ("-" = none), each optionally followed
+    by `.<vA><vB>` (naming variants of its two ends) and, optionally, which family's child store is
+    extended -/
 def parseSchema (s : String) : Schema :=
   let parts := s.splitOn "@"
   let cs := parts.headD "-"
-  let colls := if cs == "-" then [] else (cs.splitOn ",").filterMap parseColl
+  let toks := if cs == "-" then [] else (cs.splitOn ",").filter fun t => (parseColl t).isSome
+  let colls := toks.filterMap parseColl
+  let vars := toks.map fun t => (((t.splitOn ".").getD 1 "00") ++ "00").toList
+  let names := collNames colls
   let flags := (parts.getD 1 "00").toList
   let ea := parseBool (flags.getD 0 '0')
   let eb := parseBool (flags.getD 1 '0')
-  { colls := colls, ext := fun sd => match sd with | .A => ea | .B => eb }
+  { colls := colls, ext := fun sd => match sd with | .A => ea | .B => eb,
+    naming := fun i sd =>
+      let nm := names.getD i ("", "")
+      let v := vars.getD i ['0', '0']
+      match sd with
+      | .A => mkNaming nm.1 (v.getD 0 '0')
+      | .B => mkNaming nm.2 (v.getD 1 '0') }
 
 def parseStore (s : String) : Store :=
   match s with
@@ -282,7 +322,7 @@ def view (sc : Schema) (r : Reader) (poolA poolB candA candB : List Key) : Strin
           let body := match c with
             | .rc _ _ => ",".intercalate ((r.counts i s id).map fun q => Bytes.toWire q.1 ++ ":" ++ toString q.2)
             | _ => wires (r.links i s id)
-          if body.isEmpty then "" else "^" ++ toString i ++ "=" ++ body) ++ ";"))
+          if body.isEmpty then "" else "^" ++ "/".intercalate (sc.bucketPath i c s) ++ "=" ++ body) ++ ";"))
   ents ++ colls ++ "#D" ++ dump
 
 /-- ids a history may create, per family: pools and every id of a create operation -/
@@ -317,6 +357,7 @@ def runTxSpec (sc : Schema) (g : GSSt Key) (ops : List (GOp Key)) (vw : GSSt Key
 
 def stepLine (spec : Bool) (scs pa pb : String) (txs : List String) : String :=
   let sc := parseSchema scs
+  if !sc.wf then "ill-formed-schema" else
   let poolA := parseList pa
   let poolB := parseList pb
   let ptxs := txs.map fun t => (t.splitOn ";").filterMap parseOp
